@@ -8,6 +8,10 @@
 (*   validatePath  = filepath.Join(base, s) (lexical Clean: drop "" and    *)
 (*                   ".", ".." pops) ; filepath.Rel(base, abs) ; reject    *)
 (*                   when the relative path has the string prefix ".."     *)
+(*   validateObjectPath = validatePath + reject "resolved = base" (the     *)
+(*                   object operations; prefix operations -- List*, Exists,*)
+(*                   RemoveDirectory, Read*, GetFullPath -- use            *)
+(*                   validatePath alone)                                   *)
 (*   staging       = resolved path + ".part" (WriteReader, AppendReader,   *)
 (*                   and the fall-back of StatFile / ReadToAt) ; Write     *)
 (*                   stages in filepath.Dir(resolved path)                 *)
@@ -21,7 +25,9 @@
 (***************************************************************************)
 EXTENDS Naturals, Sequences, FiniteSets, TLC, Json
 
-CONSTANTS MaxLen,   \* maximal key length in characters
+CONSTANTS MaxLen,       \* maximal key length in characters
+          RejectAlias,  \* TRUE = /repo now (814856a): validateObjectPath refuses a key that resolves to the root itself
+                        \* for Write, WriteReader, AppendReader, StatFile, ReadToAt, Delete; FALSE = as first written
           Emit
 
 Chars == {"/", ".", "0", "a", "b"}
@@ -98,8 +104,9 @@ Next == Trim \/ Replace \/ Strip \/ Join \/ Check \/ Done
 Spec == Init /\ [][Next]_vars
 
 -----------------------------------------------------------------------------
-Accepted  == stage = "accepted"
+Accepted  == stage = "accepted"                      \* validatePath accepts
 RootAlias == Accepted /\ abs = Base
+ObjAccepted == Accepted /\ (RejectAlias => ~RootAlias)  \* validateObjectPath accepts
 
 \* where the three write operations put their staging file
 PartDirInside  == ~RootAlias                   \* "<resolved>.part": a sibling of the root when resolved = root
@@ -129,15 +136,15 @@ SpokeOK ==
 \* (1) the location an accepted key resolves to is the root or below it
 ResolvedInside == Accepted => Under(abs)
 \* the second line of defence is needed: the sanitiser alone lets ".." through (NUL between two dots)
-\* (2) candidates, evaluated separately: staging locations of accepted keys are inside the root
-StagingInside  == Accepted => (PartDirInside /\ WriteDirInside)
-\* (3) candidate: a key the cluster manifest validator lets through never stages outside the root
-ManifestStagingInside == (Accepted /\ ManifestOK) => PartDirInside
+\* (2) staging locations of keys the object operations accept are inside the root (rejected by TLC when RejectAlias = FALSE)
+StagingInside  == ObjAccepted => (PartDirInside /\ WriteDirInside)
+\* (3) a key the cluster manifest validator lets through never stages outside the root (idem)
+ManifestStagingInside == (ObjAccepted /\ ManifestOK) => PartDirInside
 \* edge-sync keys are never root aliases (the .parquet suffix is a real last segment)
 SyncNeverAlias == (Accepted /\ SyncOK) => ~RootAlias
 
 Terminal == stage \in {"accepted", "rejected"}
 EmitInv == (Emit /\ Terminal) =>
     PrintT(<<"TRACE", ToJson([key |-> key, acc |-> Accepted, rel |-> IF Accepted THEN RelOf(abs) ELSE <<>>,
-                              alias |-> RootAlias, man |-> ManifestOK, sync |-> SyncOK, spoke |-> SpokeOK])>>)
+                              alias |-> RootAlias, obj |-> ObjAccepted, man |-> ManifestOK, sync |-> SyncOK, spoke |-> SpokeOK])>>)
 =============================================================================
